@@ -7,7 +7,16 @@ props = [json.loads(l)["id"] for l in open(os.path.join(ROOT, "properties.jsonl"
 claimed = {f["property_id"] for f in frags}
 na_path = os.path.join(ROOT, "manifest.d", "not_applicable.json")
 na = json.load(open(na_path)) if os.path.exists(na_path) else {}
-hooks = [l.strip() for l in open(os.path.join(ROOT, "MANIFEST.hooks")) if l.strip() and not l.startswith("#")] if os.path.exists(os.path.join(ROOT, "MANIFEST.hooks")) else []
+# MANIFEST.hooks and known_findings.json are assembled from per-property fragments
+hooks = []
+for f in sorted(glob.glob(os.path.join(ROOT, "hooks.d", "*.txt"))):
+    hooks += [l.strip() for l in open(f) if l.strip() and not l.startswith("#")]
+open(os.path.join(ROOT, "MANIFEST.hooks"), "w").write(
+    "# <commit in /repo> <file> <what it exports>   (all files are add-only, //go:build verif)\n" + "".join(h + "\n" for h in hooks))
+kf = []
+for f in sorted(glob.glob(os.path.join(ROOT, "known_findings.d", "*.json"))):
+    kf += json.load(open(f))
+json.dump(kf, open(os.path.join(ROOT, "known_findings.json"), "w"), indent=1)
 commits = sorted({h.split()[0] for h in hooks if h.split()})
 m = {
  "version": 1,
